@@ -1,8 +1,10 @@
 #!/bin/bash
-# tools/confirm_batch.sh <PROP> [checks...]   confirm all mutants of /tmp/wt/a_<PROP>/mutants/* in parallel (background)
-p=$1; shift
+# tools/confirm_batch.sh <PROP> [prefix=a] [offset=0] [checks...]   confirm all mutants of /tmp/wt/<prefix>_<PROP>/mutants/m<i> in parallel
+# (background); stored as seeded/<PROP>_m<i+offset>
+p=$1; pre=${2:-a}; off=${3:-0}; shift; shift; shift
 checks=${@:-$p}
-for d in /tmp/wt/a_$p/mutants/m*; do
-  m=$(basename $d)
-  (/venv/bin/python /verif/tools/confirm_mutant.py $d ${p}_$m $checks > /tmp/wt/confirm_${p}_$m.log 2>&1 &)
+for d in /tmp/wt/${pre}_$p/mutants/m*; do
+  i=$(basename $d | tr -d m)
+  sid=${p}_m$((i+off))
+  (/venv/bin/python /verif/tools/confirm_mutant.py $d $sid $checks > /tmp/wt/confirm_$sid.log 2>&1 &)
 done
